@@ -1242,6 +1242,7 @@ where
     /// Send all stored packets for retransmission
     fn send_stored(&mut self) -> Vec<GenericEvent<PacketIdType>> {
         let mut events = Vec::new();
+        let mut resent: u16 = 0;
         self.store.for_each(|packet| {
             if packet.size() > self.maximum_packet_size_send as usize {
                 let packet_id = packet.packet_id();
@@ -1257,8 +1258,13 @@ where
                 packet: packet.clone().into(),
                 release_packet_id_if_send_error: None,
             });
+            resent = resent.saturating_add(1);
             true // Keep in store
         });
+        // retransmitted exchanges occupy the peer's Receive Maximum window like new ones
+        if self.publish_send_max.is_some() {
+            self.publish_send_count = self.publish_send_count.saturating_add(resent);
+        }
 
         events
     }
